@@ -260,7 +260,7 @@ func preprocess(workerID string, seed *models.Item) {
 		if err != nil {
 			logger.Warn("unable to seencheck seed", "seed_id", seed.GetShortID(), "err", err.Error(), "func", "preprocessor.preprocess")
 		}
-	} else {
+	} else if config.Get().UseSeencheck {
 		err = seencheck.SeencheckItem(seed)
 		if err != nil {
 			logger.Warn("unable to seencheck seed", "seed_id", seed.GetShortID(), "err", err.Error(), "func", "preprocessor.preprocess")
